@@ -474,3 +474,62 @@ Example h_explicit_skeleton_ex :
   label (h_to_explicit ex_ch4_partial None false) 5%N = Some (mk "C" 0) /\
   node_ids (h_to_explicit ex_ch4_partial None false) = [5; 7; 8; 9; 10]%N.
 Proof. vm_compute. auto. Qed.
+
+(** ** the implicit direction keeps the heavy skeleton, for every networkx graph (any hydrogens, also outside h_dom) *)
+Lemma fold_inc_label l : forall (G : gr) n,
+  match label (fold_left (fun acc x => set_node acc x inc_h) l G) n, label G n with
+  | Some a', Some a => same_but_hc a' a
+  | None, None => True
+  | _, _ => False
+  end.
+Proof.
+  induction l as [|x r IH]; intros G n; simpl.
+  - destruct (label G n) as [a|]; [unfold same_but_hc; auto 10|exact Logic.I].
+  - specialize (IH (set_node G x inc_h) n). rewrite label_set_node in IH.
+    destruct (label (fold_left _ r (set_node G x inc_h)) n) as [a'|]; destruct (N.eqb n x); destruct (label G n) as [a|];
+      simpl in IH; exact IH.
+Qed.
+
+Lemma gedges_fold_inc l : forall G : gr, gedges (fold_left (fun acc x => set_node acc x inc_h) l G) = gedges G.
+Proof. induction l as [|y r IH]; intros G; [reflexivity|]. simpl. rewrite IH. reflexivity. Qed.
+
+Theorem h_implicit_skeleton (g : gr) : gwfb g = true ->
+  let F := h_to_implicit g in
+  (forall n a, label g n = Some a -> el_is_H a = false -> exists a', label F n = Some a' /\ same_but_hc a' a) /\
+  (forall u v, is_H g u = false -> is_H g v = false -> adj F u v = adj g u v).
+Proof.
+  intros Hw. pose proof (gwfb_gwf g Hw) as W. intros F. unfold F, h_to_implicit. cbv zeta.
+  set (hs := filter (is_H (copy g)) (node_ids (copy g))).
+  assert (forall h, In h hs -> is_H g h = true) as Hhs by (intros h Hin; apply filter_In in Hin; apply Hin).
+  assert (forall G,
+            (forall n a, label g n = Some a -> el_is_H a = false -> exists a', label G n = Some a' /\ same_but_hc a' a) ->
+            (forall u v, is_H g u = false -> is_H g v = false -> adj G u v = adj g u v) ->
+            (forall n a, label g n = Some a -> el_is_H a = false ->
+               exists a', label (fold_left himp_step hs G) n = Some a' /\ same_but_hc a' a) /\
+            (forall u v, is_H g u = false -> is_H g v = false -> adj (fold_left himp_step hs G) u v = adj g u v)) as Hfold.
+  { induction hs as [|h r IH]; intros G HL HA; [split; assumption|]. cbn [fold_left].
+    apply IH; [intros h' Hh'; apply Hhs; right; exact Hh'| |].
+    - intros n a La Hel. destruct (HL n a La Hel) as (a1 & L1 & S1). unfold himp_step.
+      destruct (filter _ (nbrs G h)) as [|x l] eqn:E; [eauto|].
+      assert (n <> h) as Hnh.
+      { intros ->. pose proof (Hhs h (or_introl eq_refl)) as HH. unfold is_H in HH. rewrite La, Hel in HH. discriminate. }
+      rewrite label_remove_node. destruct (N.eqb_spec n h); [contradiction|].
+      pose proof (fold_inc_label (x :: l) G n) as FI. rewrite L1 in FI.
+      match type of FI with match ?X with _ => _ end => destruct X as [a2|] end; [|contradiction]. exists a2. split; [reflexivity|].
+      destruct FI as (F1 & F2 & F3 & F4 & F5). destruct S1 as (S1 & S2 & S3 & S4 & S5). repeat split; congruence.
+    - intros u v Hu Hv. rewrite <- (HA u v Hu Hv). unfold himp_step.
+      destruct (filter _ (nbrs G h)) as [|x l] eqn:E; [reflexivity|].
+      rewrite adj_remove_node.
+      assert (u <> h /\ v <> h) as [Huh Hvh].
+      { pose proof (Hhs h (or_introl eq_refl)) as HH. split; intros ->; congruence. }
+      destruct (N.eqb_spec u h); [contradiction|]. destruct (N.eqb_spec v h); [contradiction|]. simpl.
+      unfold adj. rewrite gedges_fold_inc. reflexivity. }
+  apply Hfold.
+  - intros n a La _. exists a. split; [rewrite label_copy; exact La|repeat split].
+  - intros u v _ _. apply adj_copy. exact W.
+Qed.
+
+Example h_implicit_skeleton_ex :
+  gwfb ex_bridge = true /\ h_dom (copy ex_bridge) = false /\
+  option_map a_el (label (h_to_implicit ex_bridge) 1%N) = Some (Some (s2l "B")) /\ node_ids (h_to_implicit ex_bridge) = [1; 3]%N.
+Proof. vm_compute. repeat split. Qed.
